@@ -131,7 +131,7 @@ VARIANTS = [
     fire('c12-revert-splitlines', ['C12'], [(BC, "    lines = s.split('\\n')\n    return [line + '\\n' for line in lines[:-1]] + [lines[-1]]", "    lines = s.splitlines(keepends=True)\n    if not lines or lines[-1].endswith('\\n'):\n        lines.append('')\n    return lines")], 'LINESPLIT'),
     fire('c12-revert-date', ['C12'], [(DT, "        return f'{value.year:04d}-{value.month:02d}-{value.day:02d}'", "        return value.strftime('%Y-%m-%d')")], 'FMT-LANG'),
     fire('c17-spacing-re', ['C17'], [(SP, r"re.compile(r'([ \t]+)|(\r*\n)')", r"re.compile(r'([ \t]+)|(\r?\n)')")], 'SPACING-RE'),
-    fire('c17-collects-any', ['C17'], [(SP, "    while isinstance(token, Newline | Whitespace):", "    while token is not None and not isinstance(token, BlockCommentLike):" if False else "    while isinstance(token, base.RawTokenModel):")], 'SP-GUARD'),
+    fire('c17-collects-any', ['C17'], [(SP, "    while isinstance(token, Newline | Whitespace):", "    while token is not None and not isinstance(token, BlockCommentLike):" if False else "    while isinstance(token, base.RawTokenModel):")], 'SP-SEM'),
     fire('c17-after-uses-first', ['C17'], [(SP, "            self.token_store.insert_after(self.last_token, tokens)", "            self.token_store.insert_after(self.first_token, tokens)")], 'SP-RANGE'),
     # ------------------------------------------------------------------ C11 / C20 / C14 / C15 / C18
     fire('c11-identity-transformer', ['C11'], [(BA, "        return self.clone(token_store, MappingTokenTransformer(token_map))", "        return self.clone(token_store, IDENTITY_TOKEN_TRANSFORMER)")], 'COPY-STORE'),
